@@ -93,6 +93,22 @@ PROPERTIES = {
              "old": "                    ObjTraits.getattr(type_rhs, reverse_op), [val_rhs, val_lhs], {}", "new": "                    ObjTraits.getattr(type_rhs, reverse_op), [val_lhs, val_rhs], {}"},
         ],
     },
+    "C12": {
+        "modules": ["contracts.core_models", "contracts.c13_types", "contracts.c06_ports", "contracts.c12_instances"],
+        "level": "proof",
+        "explanation": "the structural half of the statement is decided function by function, each proved from the real source: (1) Entity._port_declarations emits exactly the declared ports, in declaration order, each line starting with the declared name and carrying the declared direction, and only returns when declared name == scope name (C06 contract, symbolic names); (2) cohdl.Entity.__init__ associates every formal with exactly the actual passed for it, rejects unknown names, missing actuals and incompatible actuals, and removes the default only from the object an instance output drives (a slice actual leaves the rest of its root initialised); (3) EntityInst._port_map / _generic_map list every formal once, in declaration order, with the text of its own actual for every order of the actuals dictionary; (4) VhdlAssembler.apply converts an entity template once (cache hit returns the converted entity, a new conversion is registered), declares its ports in order under their declared names, and gives every output port one buffer initialised with the port's default whenever it has one; (5) Library.from_top_entity lists every entity once, sub-entities before their users, over instantiation DAGs incl. shared templates.",
+        "assumptions": COMMON_ASSUME + [
+            "behavioural equivalence of instantiation and inlining 'for all input sequences' is the VHDL semantics of component instantiation with named association, given the structural facts above; it is not executed (no simulator)",
+            "instantiation shapes are enumerated (<= 3 formals, <= 2 template ports per kind combination, 7 instantiation DAGs up to 4 entities); names, types and values are arbitrary within a shape",
+            "NOT decided: ConvertPythonInstance.apply / ConvertInstance.apply template caching on the front-end side (identity of EntityTemplate per entity class), instances created inside contexts (inline entities placed by the tracer), format_target / format_value of slice and typed-view actuals (covered by the C05/C13 contracts as operand lemma)",
+        ],
+        "canaries": [
+            {"name": "buffer-default-falsy", "contract": "cohdl._compiler.backend.vhdl._vhdl_assembler:VhdlAssembler.apply", "case": "template:[out/0]", "file": "cohdl/_compiler/backend/vhdl/_vhdl_assembler.py",
+             "old": "                if port.has_default():", "new": "                if port.default():"},
+            {"name": "default-removed-from-root", "contract": "cohdl._core._context:Entity.__init__", "case": "connect:output-through-slice", "file": "cohdl/_core/_context.py",
+             "old": "                    port_def._default = None", "new": "                    port_def._root._default = None"},
+        ],
+    },
     "C17": {
         "modules": ["contracts.core_models", "contracts.c17_proofs"],
         "level": "other",
